@@ -122,9 +122,9 @@ struct Scn {
     ops: Vec<(TOp, &'static str)>,
 }
 
-const KINDS: [&str; 10] = [
+const KINDS: [&str; 11] = [
     "random", "forward", "backward", "repeat_same_time", "boundary", "near_boundary", "beyond_end",
-    "astronomical", "negative", "op",
+    "astronomical", "negative", "negative_zero", "op",
 ];
 
 fn kind_static(s: &str) -> &'static str {
@@ -319,6 +319,7 @@ fn generate(rng: &mut Rng, property: &str, deep: bool) -> Scn {
                 }
             }
             3 if rng.chance(0.3) => (-(rng.unit() as f32) * span, "negative"),
+            3 if rng.chance(0.2) => (-0.0f32, "negative_zero"),
             3 => (span * (1.0 + 10.0 * rng.unit() as f32), "beyond_end"),
             4 if extreme => (
                 *rng.pick(&[1e10f32, 1e19, 1e20, 1e30, f32::MAX, f32::MIN_POSITIVE, 1e-30]),
@@ -342,6 +343,53 @@ fn generate(rng: &mut Rng, property: &str, deep: bool) -> Scn {
         ));
     }
     Scn { pool, slots, ops }
+}
+
+/// A struct whose animated fields are named like the local variables of the code that
+/// derive(Animate) generates (`frame_index`, `normalized_time`, `time`, `values`): evaluation must
+/// still be a pure function of time - independent of the target's previous contents - for every
+/// field. (Names that already fail to compile on the unchanged code, like `target`, are avoided.)
+#[derive(Animate, Clone, Debug, Default, PartialEq)]
+struct Hygiene {
+    #[animate]
+    frame_index: usize,
+    #[animate]
+    normalized_time: f32,
+    #[animate]
+    time: f32,
+    #[animate]
+    alpha: f32,
+    #[animate]
+    values: i32,
+    untouched: u32,
+}
+
+fn hygiene_probe(times: &[f32], variant: u64) -> Option<String> {
+    let tl = TimelineBuilder::build(
+        Hygiene::timeline()
+            .duration_seconds(2.0)
+            .delay_seconds(if variant & 1 == 1 { 0.5 } else { 0.0 })
+            .reverse(variant & 2 == 2)
+            .keyframe(Hygiene::keyframe(0.0).frame_index(3).normalized_time(0.25).time(10.0).alpha(0.0).values(-5))
+            .keyframe(Hygiene::keyframe(0.5).frame_index(40).alpha(1.0))
+            .keyframe(Hygiene::keyframe(1.0).frame_index(7).normalized_time(0.75).time(-10.0).alpha(0.5).values(50)),
+    );
+    let dirty_a = Hygiene { frame_index: 0, normalized_time: 0.0, time: 0.0, alpha: 0.0, values: 0, untouched: 11 };
+    let dirty_b = Hygiene { frame_index: 2, normalized_time: 0.9, time: 123.0, alpha: -4.0, values: 77, untouched: 11 };
+    let dirty_c = Hygiene { frame_index: 999, normalized_time: -3.0, time: 1.0e6, alpha: 9.0, values: -1, untouched: 11 };
+    let copy = tl.clone();
+    for t in times {
+        let (mut a, mut b, mut c) = (dirty_a.clone(), dirty_b.clone(), dirty_c.clone());
+        tl.update(&mut a, *t);
+        tl.update(&mut b, *t);
+        copy.update(&mut c, *t);
+        if a != b || a != c {
+            return Some(format!(
+                "struct with fields named like generated locals: at t={t} the result depends on the target's previous contents: {a:?} vs {b:?} vs (clone) {c:?}"
+            ));
+        }
+    }
+    None
 }
 
 fn viol(property: &str, clause: &str, step: usize, detail: String, signature: String) -> Violation {
@@ -651,6 +699,34 @@ fn execute(scn: &Scn, property: &str) -> RunOutcome {
         }
         if out.violation.is_some() {
             break;
+        }
+    }
+    if property == "C09" && out.violation.is_none() {
+        let times: Vec<f32> = scn
+            .ops
+            .iter()
+            .filter_map(|(op, _)| match op {
+                TOp::Update { t, .. } if t.is_finite() => Some(*t % 8.0),
+                _ => None,
+            })
+            .take(12)
+            .collect();
+        out.evaluations += times.len() as u64;
+        out.count("probe.hygiene_struct_evaluated");
+        match catch(|| hygiene_probe(&times, scn.ops.len() as u64)) {
+            Ok(None) => {}
+            Ok(Some(d)) => {
+                out.violation = Some(viol("C09", "result-depends-on-target-contents", scn.ops.len(), d, "hygiene".into()));
+            }
+            Err(p) => {
+                out.violation = Some(viol(
+                    "C09",
+                    &format!("panic@{}:{}", p.file, p.line),
+                    scn.ops.len(),
+                    format!("hygiene struct panicked: {}", p.describe()),
+                    "panic hygiene".into(),
+                ));
+            }
         }
     }
     out.obs_hash = h.0;
